@@ -12,7 +12,7 @@ use crate::shapes::Sh;
 use crate::solver::{Answer, Proc, Which};
 use num_bigint::BigUint;
 use patronus::expr::{Context, ExprRef, TypeCheck};
-use patronus::smt::{SmtCommand, parse_command, parse_expr, read_command, serialize_cmd};
+use patronus::smt::{SmtCommand, parse_command, parse_expr, read_command};
 use rayon::prelude::*;
 use rustc_hash::FxHashMap;
 use serde_json::json;
@@ -25,9 +25,7 @@ pub const SITE_READER: &str = "smt::parse_expr (standard terms in the spellings 
 pub const SITE_VAL: &str = "smt::parse_expr on solver model values / SmtLibSolverCtx::get_value";
 
 fn real_cmd(ctx: &Context, cmd: &SmtCommand) -> String {
-    let mut buf: Vec<u8> = vec![];
-    serialize_cmd(&mut buf, Some(ctx), cmd).expect("serialize_cmd failed");
-    String::from_utf8(buf).unwrap()
+    c05::real_cmd(ctx, cmd)
 }
 
 fn term_text(ctx: &Context, e: ExprRef) -> String {
